@@ -20,7 +20,9 @@
 // `if`/`else` chains (no init statement), `return`, calls to `must.Be.…` (debug assertions, no-ops),
 // and `for init; i < E; i++ { … }` / `i <= E` where `i` is the integer counter declared by `init`
 // with a non-negative constant, the body assigns neither `i` nor a variable of `E`, and contains no
-// return/break/continue.  A loop becomes a fuel-recursive auxiliary definition `<f>_loop<k>` over the
+// return/break/continue; and `for i := range x`, `for i, v := range x`, `for _, v := range x` over a
+// slice (the body may assign elements of x but not x, i or v): an index loop whose bound len(x) is
+// evaluated once.  A loop becomes a fuel-recursive auxiliary definition `<f>_loop<k>` over the
 // tuple of variables it assigns, called with fuel `E` (`E + 1`), which bounds the iteration count.
 //
 // Expressions: integer arithmetic `+ - * / % << >> & | ^ &^`, unary `- ^ +`, constants,
@@ -289,6 +291,7 @@ type funcTr struct {
 	aux     []string          // auxiliary (loop) definitions
 	forced  map[types.Object]types.Type
 	mutated map[types.Object]bool // pointer parameters whose fields the function assigns
+	synth   map[string]bool       // generated names (loop lengths)
 	loopCnt int
 }
 
@@ -1144,6 +1147,76 @@ func (t *funcTr) loop(x *ast.ForStmt, ret func(*ast.ReturnStmt) string) (string,
 	return "", "", ctr
 }
 
+// emitLoop generates the fuel-recursive auxiliary definition of a loop with counter `cn`, condition
+// `condFn`, body (preceded by the Lean text of `preFn`, if any) followed by `post`; it returns the
+// Lean `let <state> := <aux> … <fuel> <state>` that runs it.
+func (t *funcTr) emitLoop(cn string, condFn func() string, preFn func() string, bodyStmts []ast.Stmt, post ast.Stmt,
+	fuelFn func() string, ret func(*ast.ReturnStmt) string) string {
+	// the state: the counter and every current variable the body assigns
+	names := t.assignedOuter(bodyStmts)
+	hasCtr := false
+	for _, n := range names {
+		hasCtr = hasCtr || n == cn
+	}
+	if !hasCtr {
+		names = append(names, cn)
+		sort.Strings(names)
+	}
+	tp := tuple(names)
+	var stys []string
+	for _, n := range names {
+		l := t.tyOf[n].lean()
+		if strings.Contains(l, " ") {
+			l = "(" + l + ")"
+		}
+		stys = append(stys, l)
+	}
+	sty := strings.Join(stys, " × ")
+	t.loopCnt++
+	aux := fmt.Sprintf("%s_loop%d", t.what, t.loopCnt)
+	// translate condition and body, recording what they read
+	outerUsed := t.used
+	t.used = map[string]bool{}
+	saved := t.saveBound()
+	c := condFn()
+	pre := ""
+	if preFn != nil {
+		pre = preFn()
+	}
+	const callMark = "\x00CALL\x00"
+	body := pre + t.block(append(append([]ast.Stmt{}, bodyStmts...), post), callMark, ret, "      ")
+	t.bound = saved
+	inState := map[string]bool{}
+	for _, n := range names {
+		inState[n] = true
+	}
+	var free []string
+	for n := range t.used {
+		if !inState[n] {
+			if _, known := t.tyOf[n]; known && outerVisible(t, n, saved) {
+				free = append(free, n)
+			}
+		}
+	}
+	sort.Strings(free)
+	for n := range t.used {
+		outerUsed[n] = true
+	}
+	t.used = outerUsed
+	var sig strings.Builder
+	for _, n := range free {
+		fmt.Fprintf(&sig, " (%s : %s)", n, t.tyOf[n].lean())
+	}
+	args := ""
+	if len(free) > 0 {
+		args = " " + strings.Join(free, " ")
+	}
+	body = strings.ReplaceAll(body, callMark, fmt.Sprintf("%s%s fuel %s", aux, args, tp))
+	t.aux = append(t.aux, fmt.Sprintf("def %s%s : Nat → %s → %s\n  | 0, st => st\n  | fuel + 1, %s =>\n    if %s then\n      (%s)\n    else %s\n",
+		aux, sig.String(), sty, sty, tp, c, body, tp))
+	return fmt.Sprintf("let %s := %s%s %s %s", tp, aux, args, fuelFn(), tp)
+}
+
 // block translates a statement list.  `cont` is the Lean term that is the value of the block when
 // control falls off its end ("" : falling off the end is an error); `ret` translates a return.
 func (t *funcTr) block(stmts []ast.Stmt, cont string, ret func(*ast.ReturnStmt) string, ind string) string {
@@ -1321,79 +1394,103 @@ func (t *funcTr) block(stmts []ast.Stmt, cont string, ret func(*ast.ReturnStmt) 
 		cty, _ := intTypeOf(t.typeOf(ctr))
 		iv, _ := t.expr(init.Rhs[0])
 		cn := bindLocal(ctr, gty{k: kInt, it: cty})
-		// the state: the counter and every current variable the body assigns
-		names := t.assignedOuter(x.Body.List)
-		hasCtr := false
-		for _, n := range names {
-			hasCtr = hasCtr || n == cn
-		}
-		if !hasCtr {
-			names = append(names, cn)
-			sort.Strings(names)
-		}
-		tp := tuple(names)
-		var stys []string
-		for _, n := range names {
-			l := t.tyOf[n].lean()
-			if strings.Contains(l, " ") {
-				l = "(" + l + ")"
-			}
-			stys = append(stys, l)
-		}
-		sty := strings.Join(stys, " × ")
-		t.loopCnt++
-		aux := fmt.Sprintf("%s_loop%d", t.what, t.loopCnt)
-		// translate condition and body, recording what they read
-		outerUsed := t.used
-		t.used = map[string]bool{}
-		saved := t.saveBound()
-		c := t.bexpr(cond)
-		const callMark = "\x00CALL\x00"
-		body := t.block(append(append([]ast.Stmt{}, x.Body.List...), x.Post), callMark, ret, "      ")
-		t.bound = saved
-		inState := map[string]bool{}
-		for _, n := range names {
-			inState[n] = true
-		}
-		var free []string
-		for n := range t.used {
-			if !inState[n] {
-				if _, known := t.tyOf[n]; known {
-					free = append(free, n)
-				}
-			}
-		}
-		sort.Strings(free)
-		// locals of the body are not parameters of the loop: keep only names visible outside
-		var freeOuter []string
-		for _, n := range free {
-			if outerVisible(t, n, saved) {
-				freeOuter = append(freeOuter, n)
-			}
-		}
-		free = freeOuter
-		for n := range t.used {
-			outerUsed[n] = true
-		}
-		t.used = outerUsed
-		var sig strings.Builder
-		for _, n := range free {
-			fmt.Fprintf(&sig, " (%s : %s)", n, t.tyOf[n].lean())
-		}
-		args := ""
-		if len(free) > 0 {
-			args = " " + strings.Join(free, " ")
-		}
-		body = strings.ReplaceAll(body, callMark, fmt.Sprintf("%s%s fuel %s", aux, args, tp))
-		t.aux = append(t.aux, fmt.Sprintf("def %s%s : Nat → %s → %s\n  | 0, st => st\n  | fuel + 1, %s =>\n    if %s then\n      (%s)\n    else %s\n",
-			aux, sig.String(), sty, sty, tp, c, body, tp))
 		// fuel: the bound E (+1 for <=) bounds the number of iterations
-		bound, _ := t.expr(cond.Y)
-		fuel := bound
-		if cond.Op == token.LEQ {
-			fuel = "(" + bound + " + 1)"
+		fuelFn := func() string {
+			bound, _ := t.expr(cond.Y)
+			if cond.Op == token.LEQ {
+				return "(" + bound + " + 1)"
+			}
+			return bound
 		}
-		return fmt.Sprintf("let %s := %s;\n%slet %s := %s%s %s %s;\n%s%s", cn, iv, ind, tp, aux, args, fuel, tp, ind,
+		call := t.emitLoop(cn, func() string { return t.bexpr(cond) }, nil, x.Body.List, x.Post, fuelFn, ret)
+		return fmt.Sprintf("let %s := %s;\n%s%s;\n%s%s", cn, iv, ind, call, ind, t.block(rest, cont, ret, ind))
+	case *ast.RangeStmt:
+		// `for i := range x`, `for i, v := range x`, `for _, v := range x` over a slice: an index loop
+		// whose bound, len(x), is evaluated once before the loop
+		if x.Tok != token.DEFINE {
+			t.fail(s, "range loop: the variables must be declared by the loop (`:=`)")
+		}
+		xs, xty := t.val(x.X)
+		if xty.k != kSlice && xty.k != kBytes {
+			t.fail(s, "range over something that is not a slice")
+		}
+		if _, isStr := t.typeOf(x.X).Underlying().(*types.Basic); isStr {
+			t.fail(s, "range over a string (iterates over runes)")
+		}
+		xs = seq(xs, xty)
+		bad := false
+		ast.Inspect(x.Body, func(n ast.Node) bool {
+			switch n.(type) {
+			case *ast.ReturnStmt, *ast.BranchStmt, *ast.GoStmt, *ast.DeferStmt:
+				bad = true
+			}
+			return true
+		})
+		if bad {
+			t.fail(s, "range loop: return / break / continue in the body")
+		}
+		// the body may assign elements of x but not x itself
+		if id, ok := x.X.(*ast.Ident); ok {
+			ast.Inspect(x.Body, func(n ast.Node) bool {
+				if a, ok := n.(*ast.AssignStmt); ok {
+					for _, l := range a.Lhs {
+						if li, ok := l.(*ast.Ident); ok && t.obj(li) == t.obj(id) {
+							t.fail(s, "range loop: the body assigns the slice it ranges over")
+						}
+					}
+				}
+				return true
+			})
+		}
+		t.loopCnt++
+		k := t.loopCnt
+		t.loopCnt-- // emitLoop counts itself
+		isBlank := func(e ast.Expr) bool {
+			id, ok := e.(*ast.Ident)
+			return e == nil || (ok && id.Name == "_")
+		}
+		var key *ast.Ident
+		if isBlank(x.Key) {
+			key = ast.NewIdent(fmt.Sprintf("idx%d", k))
+			v := types.NewVar(token.NoPos, nil, key.Name, types.Typ[types.Int])
+			t.info.Defs[key] = v
+		} else {
+			key = x.Key.(*ast.Ident)
+		}
+		if assigns(x.Body, t.info.Defs[key], t.info) {
+			t.fail(s, "range loop: the body assigns the index variable")
+		}
+		// the length, evaluated once
+		ln := fmt.Sprintf("len%d", k)
+		t.synth[ln] = true
+		t.note(ln, gty{k: kInt, it: intTy{64, true}})
+		cn := bindLocal(key, gty{k: kInt, it: intTy{64, true}})
+		var pre func() string
+		if !isBlank(x.Value) {
+			vid := x.Value.(*ast.Ident)
+			if assigns(x.Body, t.info.Defs[vid], t.info) {
+				t.fail(s, "range loop: the body assigns the value variable")
+			}
+			ety := gty{k: kInt, it: intTy{8, false}}
+			if xty.k == kSlice {
+				ety = *xty.elem
+			}
+			pre = func() string {
+				// x as it is at this iteration (the body may have assigned elements)
+				cur, cty := t.val(x.X)
+				vn := bindLocal(vid, ety)
+				t.note(cn, t.tyOf[cn])
+				return fmt.Sprintf("let %s := (%s.getD (%s) %s);\n      ", vn, seq(cur, cty), cn, ety.zero())
+			}
+		}
+		post := &ast.IncDecStmt{X: key, Tok: token.INC}
+		t.info.Uses[key] = t.info.Defs[key]
+		call := t.emitLoop(cn, func() string {
+			t.note(cn, t.tyOf[cn])
+			t.note(ln, t.tyOf[ln])
+			return fmt.Sprintf("(Go.ltS 64 %s %s)", cn, ln)
+		}, pre, x.Body.List, post, func() string { return ln }, ret)
+		return fmt.Sprintf("let %s := (%s.length);\n%slet %s := 0;\n%s%s;\n%s%s", ln, xs, ind, cn, ind, call, ind,
 			t.block(rest, cont, ret, ind))
 	case *ast.IfStmt:
 		if x.Init != nil {
@@ -1450,6 +1547,9 @@ func (t *funcTr) block(stmts []ast.Stmt, cont string, ret func(*ast.ReturnStmt) 
 
 // outerVisible: is the lean name a parameter or a variable bound outside the loop?
 func outerVisible(t *funcTr, name string, outer map[types.Object]bool) bool {
+	if t.synth[name] {
+		return true
+	}
 	for _, p := range t.params {
 		if p.name == name {
 			return true
@@ -1492,7 +1592,7 @@ func (t *funcTr) signature() string {
 func newTr(what string, info *types.Info, files []*ast.File, fd *ast.FuncDecl) *funcTr {
 	t := &funcTr{what: what, info: info, files: files, fd: fd, bound: map[types.Object]bool{}, declAt: map[types.Object]int{},
 		fields: map[string]string{}, nilCmp: map[string]bool{}, used: map[string]bool{}, tyOf: map[string]gty{},
-		forced: map[types.Object]types.Type{}, mutated: map[types.Object]bool{}}
+		forced: map[types.Object]types.Type{}, mutated: map[types.Object]bool{}, synth: map[string]bool{}}
 	n := 0
 	for _, f := range fd.Type.Params.List {
 		for _, nm := range f.Names {
@@ -1777,48 +1877,94 @@ func translateFirstResult(info *types.Info, files []*ast.File, fd *ast.FuncDecl,
 	return translateExpr(info, files, fd, rets[0].Results[0], leanDef)
 }
 
+// emitDef runs one translation under its own recover: a function outside the subset is replaced by
+// a comment (and reported on stderr), the others are still generated — only the bridge modules
+// that mention the missing definition stop compiling.
+func emitDef(b *strings.Builder, name string, f func() string) {
+	defer func() {
+		if r := recover(); r != nil {
+			ge, ok := r.(groupError)
+			if !ok {
+				panic(r)
+			}
+			msg := strings.ReplaceAll(ge.msg, "\n", " ")
+			fmt.Fprintf(b, "-- cannot translate %s: %s\n\n", name, msg)
+			fmt.Fprintf(os.Stderr, "extract: funcs: cannot translate %s: %s\n", name, msg)
+		}
+	}()
+	b.WriteString(f() + "\n")
+}
+
 // writeFuncs is called from main: it writes lean/Generated/Funcs.lean.
 func writeFuncs(repo string, trieFiles []*ast.File, info *types.Info, out string) {
 	var b strings.Builder
 	b.WriteString("import Generated.GoSem\n/- GENERATED by harness/cmd/extract (translate.go) from /repo's working tree.  Do not edit.\n")
-	b.WriteString("   Meaning of the `Go.*` operations: lean/Generated/GoSem.lean. -/\nset_option linter.unusedVariables false\nnamespace Generated\n\n")
+	b.WriteString("   Meaning of the `Go.*` operations: lean/Generated/GoSem.lean.\n")
+	b.WriteString("   A function that could not be translated is replaced by a `-- cannot translate` comment. -/\nset_option linter.unusedVariables false\nnamespace Generated\n\n")
 	fn := func(recv, name string) *ast.FuncDecl { return funcDecl(trieFiles, recv, name) }
-	b.WriteString(translateFunc(info, trieFiles, fn("", "encStep"), "encStep") + "\n")
-	b.WriteString(translateFunc(info, trieFiles, fn("", "decStep"), "decStep") + "\n")
-	b.WriteString(translateFunc(info, trieFiles, fn("SlimTrie", "getLabelIdxOfKey"), "getLabelIdxOfKey") + "\n")
+	whole := func(leanDef, recv, name string) {
+		emitDef(&b, leanDef, func() string { return translateFunc(info, trieFiles, fn(recv, name), leanDef) })
+	}
+	whole("encStep", "", "encStep")
+	whole("decStep", "", "decStep")
+	whole("getLabelIdxOfKey", "SlimTrie", "getLabelIdxOfKey")
 	for _, n := range []string{"8", "16", "32", "64"} {
-		fd := fn("SlimTrie", "GetI"+n)
-		b.WriteString(translateAssigned(info, trieFiles, fd, "v", "getI"+n) + "\n")
+		n := n
+		emitDef(&b, "getI"+n, func() string {
+			return translateAssigned(info, trieFiles, fn("SlimTrie", "GetI"+n), "v", "getI"+n)
+		})
 		if n != "8" {
-			b.WriteString(translateAssigned(info, trieFiles, fd, "stIdx", "getI"+n+"Index") + "\n")
+			emitDef(&b, "getI"+n+"Index", func() string {
+				return translateAssigned(info, trieFiles, fn("SlimTrie", "GetI"+n), "stIdx", "getI"+n+"Index")
+			})
 		}
 	}
 	// decision logic and loops
-	b.WriteString(translateFunc(info, trieFiles, fn("", "normalizeOpt"), "normalizeOpt") + "\n")
-	b.WriteString(translateFunc(info, trieFiles, fn("", "newToKeep"), "newToKeep") + "\n")
-	b.WriteString(translateFunc(info, trieFiles, fn("", "stepToPos"), "stepToPos") + "\n")
+	whole("normalizeOpt", "", "normalizeOpt")
+	whole("newToKeep", "", "newToKeep")
+	whole("stepToPos", "", "stepToPos")
 	// the choice of the short bitmap size
-	b.WriteString(translateFuncP(info, trieFiles, fn("", "memIncrOfShortSize"), "memIncrOfShortSize", true) + "\n")
-	b.WriteString(translateFunc(info, trieFiles, fn("", "findMinShortSize"), "findMinShortSize") + "\n")
+	emitDef(&b, "memIncrOfShortSize", func() string {
+		return translateFuncP(info, trieFiles, fn("", "memIncrOfShortSize"), "memIncrOfShortSize", true)
+	})
+	whole("findMinShortSize", "", "findMinShortSize")
 	// offset arithmetic of the inner-node bitmaps
-	iv := fn("SlimTrie", "initVars")
-	b.WriteString(translateFieldInit(info, trieFiles, iv, "BigInnerOffset", "bigInnerOffset") + "\n")
-	b.WriteString(translateFieldInit(info, trieFiles, iv, "ShortMinusInner", "shortMinusInner") + "\n")
-	gi := fn("SlimTrie", "getIthInnerFrom")
-	b.WriteString(translateNthAssigned(info, trieFiles, gi, "qr.from", 0, 2, "innerFromBig") + "\n")
-	b.WriteString(translateNthAssigned(info, trieFiles, gi, "qr.from", 1, 2, "innerFromSmall") + "\n")
-	gn := fn("SlimTrie", "getNode")
-	b.WriteString(translateNthAssigned(info, trieFiles, gn, "qr.from", 0, 2, "getNodeFromBig") + "\n")
-	b.WriteString(translateNthAssigned(info, trieFiles, gn, "qr.from", 1, 2, "getNodeFromSmall") + "\n")
-	b.WriteString(translateFirstResult(info, trieFiles, fn("SlimTrie", "getLeafIndex"), "getLeafIndex") + "\n")
+	emitDef(&b, "bigInnerOffset", func() string {
+		return translateFieldInit(info, trieFiles, fn("SlimTrie", "initVars"), "BigInnerOffset", "bigInnerOffset")
+	})
+	emitDef(&b, "shortMinusInner", func() string {
+		return translateFieldInit(info, trieFiles, fn("SlimTrie", "initVars"), "ShortMinusInner", "shortMinusInner")
+	})
+	for _, d := range []struct {
+		lean, fn string
+		n        int
+	}{{"innerFromBig", "getIthInnerFrom", 0}, {"innerFromSmall", "getIthInnerFrom", 1},
+		{"getNodeFromBig", "getNode", 0}, {"getNodeFromSmall", "getNode", 1}} {
+		d := d
+		emitDef(&b, d.lean, func() string {
+			return translateNthAssigned(info, trieFiles, fn("SlimTrie", d.fn), "qr.from", d.n, 2, d.lean)
+		})
+	}
+	emitDef(&b, "getLeafIndex", func() string {
+		return translateFirstResult(info, trieFiles, fn("SlimTrie", "getLeafIndex"), "getLeafIndex")
+	})
 	// package encode: the size literals of the fixed-width integer encoders
-	encFiles := parseDir(filepath.Join(repo, "encode"))
+	var encFiles []*ast.File
 	encInfo := &types.Info{Types: map[ast.Expr]types.TypeAndValue{}, Defs: map[*ast.Ident]types.Object{}, Uses: map[*ast.Ident]types.Object{}}
-	encConf := types.Config{Importer: fakeImporter{}, Error: func(error) {}}
-	encConf.Check("encode", fset, encFiles, encInfo)
+	emitDef(&b, "package encode", func() string {
+		encFiles = parseDir(filepath.Join(repo, "encode"))
+		encConf := types.Config{Importer: fakeImporter{}, Error: func(error) {}}
+		encConf.Check("encode", fset, encFiles, encInfo)
+		return ""
+	})
 	for _, ty := range []string{"I8", "I16", "I32", "I64", "U16", "U32", "U64"} {
-		b.WriteString(translateFunc(encInfo, encFiles, funcDecl(encFiles, ty, "GetSize"), "encSize"+ty) + "\n")
-		b.WriteString(translateFunc(encInfo, encFiles, funcDecl(encFiles, ty, "GetEncodedSize"), "encEncodedSize"+ty) + "\n")
+		ty := ty
+		emitDef(&b, "encSize"+ty, func() string {
+			return translateFunc(encInfo, encFiles, funcDecl(encFiles, ty, "GetSize"), "encSize"+ty)
+		})
+		emitDef(&b, "encEncodedSize"+ty, func() string {
+			return translateFunc(encInfo, encFiles, funcDecl(encFiles, ty, "GetEncodedSize"), "encEncodedSize"+ty)
+		})
 	}
 	b.WriteString("end Generated\n")
 	must(os.WriteFile(out, []byte(b.String()), 0o644))
